@@ -137,6 +137,7 @@ func c07ScriptSet() [][2][]byte {
 		for op := 0; op < 256; op++ {
 			lock := lockFor(byte(op))
 			add(nil, lock)
+			add(pushAll(ops[1]), lock)
 			add(pushAll(ops[1], ops[2]), lock)
 			add(pushAll(ops[3], ops[3], ops[1]), lock)
 			add(pushAll(ops[0], ops[0], ops[0]), append([]byte{0x63}, append(lock, 0x68, 0x51)...))
@@ -218,6 +219,14 @@ func c07ScriptSet() [][2][]byte {
 		// scripts that end early or are empty on either side
 		for _, u := range [][]byte{nil, {0x51}, {0x51, 0x6a}, {0x6a}, {0x51, 0x6a, 0x4c}, {0x00, 0x63, 0x6a, 0x68, 0x51}} {
 			for _, l := range [][]byte{nil, {0x51}, {0x6a}, {0x51, 0x6a}, {0x61}} {
+				add(u, l)
+			}
+		}
+		// unlocking scripts that execute OP_CODESEPARATOR / fill the alt stack and then end early,
+		// against short locking scripts that reach a signature check or go on with the alt stack
+		for _, u := range [][]byte{{0x51, 0x51, 0x61, 0xab, 0x6a}, {0x51, 0xab, 0x6a}, {0xab, 0x51, 0x6a}, {0x51, 0x51, 0xab, 0x61, 0xab}, {0x51, 0x6b, 0x51, 0x6b, 0x51, 0x6a},
+			{0x51, 0x6b, 0x51}, {0x51, 0x6b, 0x52, 0x6b, 0x53, 0x6b, 0x51}, {0x51, 0x63, 0xab, 0x6a, 0x68}} {
+			for _, l := range [][]byte{{0xac}, {0xae}, {0xad, 0x51}, bytesJoin(minimalPush(k.comp), []byte{0xac}), tp["p2pkh"], {0x6c}, {0x6c, 0x6c, 0x6c}, {0x51, 0x51, 0xae}, {0xab, 0xac}, {0x00, 0x00, 0xae}} {
 				add(u, l)
 			}
 		}
@@ -326,7 +335,7 @@ func c07At(thorough bool, i uint64) c07Case {
 
 func init() {
 	p := register(&Prop{ID: "C07", Level: "model_checking",
-		Rule: "exhaustive exploration of Engine.Execute in isolated child processes (panic recovered per case; log.Fatal / out-of-memory / hang attributed through a progress marker and reproduced twice): (A) ALL 65,536 flag words x 64 (quick) / 256 (thorough) representative script pairs with a transaction; (B) ~1,400 script pairs (every opcode with 0/2/3 operands and inside an unexecuted branch, standard templates, multisig with junk signatures/keys/counts incl. 2^31-1 and 2^32, every malformed-signature class x key encodings, truncated pushes) x 16 flag words x 9 transaction contexts (none; 1-in/1-out; 2-in/0-out; other inputs unsigned; 31-byte previous txid built through JSON; nil previous output; previous output without script; nil tx; tx without inputs) x input index {-1,0,1,2,2^31-1} x debugger {none, recording, fan-out, scribbling}; (C) every byte string of length<=2 as locking script x 3 unlocking seeds x 4 flag words x with/without transaction; (D) one Engine value executing each of the ~1,400 script pairs twice, in every ordered pair of the 9 contexts x 3 flag words. Oracle: Execute returns nil or an error, and allocates less than 32 MiB. The lockstep checks C05/C08/C19 additionally run ~10^7 executions under the same panic containment. states = distinct (context, debugger, outcome class) combinations; transitions = executions",
+		Rule: "exhaustive exploration of Engine.Execute in isolated child processes (panic recovered per case; log.Fatal / out-of-memory / hang attributed through a progress marker and reproduced twice): (A) ALL 65,536 flag words x 64 (quick) / 256 (thorough) representative script pairs with a transaction; (B) ~1,750 script pairs (every opcode with 0/1/2/3 operands and inside an unexecuted branch, unlocking scripts that execute OP_CODESEPARATOR or fill the alt stack and end early against short signature-checking locking scripts, standard templates, multisig with junk signatures/keys/counts incl. 2^31-1 and 2^32, every malformed-signature class x key encodings, truncated pushes) x 16 flag words x 9 transaction contexts (none; 1-in/1-out; 2-in/0-out; other inputs unsigned; 31-byte previous txid built through JSON; nil previous output; previous output without script; nil tx; tx without inputs) x input index {-1,0,1,2,2^31-1} x debugger {none, recording, fan-out, scribbling}; (C) every byte string of length<=2 as locking script x 3 unlocking seeds x 4 flag words x with/without transaction; (D) one Engine value executing each of the script pairs twice, in every ordered pair of the 9 contexts x 3 flag words. Oracle: Execute returns nil or an error, and allocates less than 32 MiB. The lockstep checks C05/C08/C19 additionally run ~10^7 executions under the same panic containment. states = distinct (context, debugger, outcome class) combinations; transitions = executions",
 	})
 	NewSpace(p, "c07", c07Check)
 	worker.Register(&worker.Space{
